@@ -34,22 +34,27 @@ def run(ctx, out, budget):
     rng = ctx.rng(0)
     n = 60 if budget == "quick" else 1200
     nlay = 5 if budget == "quick" else 8
-    cases = [casgen.CasGen(rng, n_types=rng.randint(1, 5), n_fs=rng.randint(1, 10), xmi_safe=True).build() for _ in range(n)]
+    cases = [casgen.CasGen(rng, n_types=rng.randint(1, 5), n_fs=rng.randint(1, 10), xmi_safe=(kk % 4 != 3)).build() for kk in range(n)]
     stage_a = []
     for g in cases:
         h0 = g.views["_InitialView"]
-        stage_a.append(list(g.sb.ops) + [{"op": "xmi.save", "h": h0}, {"op": "json.save", "h": h0, "mode": "full"}])
+        if g.xmi_safe:
+            stage_a.append(list(g.sb.ops) + [{"op": "xmi.save", "h": h0}, {"op": "json.save", "h": h0, "mode": "full"}])
+        else:   # null FSArray elements etc.: JSON layouts only
+            stage_a.append(list(g.sb.ops) + [{"op": "cas.views", "h": h0}, {"op": "json.save", "h": h0, "mode": "full"}])
     ia = sessions.run_impl_sessions(stage_a)
     stage_b, metas = [], []
     for g, ops, io in zip(cases, stage_a, ia):
         xdoc, jdoc = io[-2].get("ok"), io[-1].get("ok")
+        if not g.xmi_safe and jdoc is not None:
+            xdoc = []
         if xdoc is None or jdoc is None:
             stage_b.append(None); metas.append(None)
             continue
         ops2 = list(ops)
         meta = []
         nh = g.sb.n_h
-        for li in range(nlay):
+        for li in range(nlay if g.xmi_safe else 0):
             lay = refio.random_layout(rng, len(xdoc))
             d = perm(xdoc, lay["order"]) if lay["order"] is not None else list(xdoc)
             if lay["drop_empty_views"]:
@@ -71,7 +76,7 @@ def run(ctx, out, budget):
             lay2 = {"dict_form": rng.random() < 0.4, "pretty": rng.random() < 0.5, "ensure_ascii": rng.random() < 0.5,
                     "views_first": rng.random() < 0.5}
             ops2.append({"op": "json.load", "doc": d, "layout": lay2})
-            ops2.append({"op": "cas.dump", "h": nh})
+            ops2.append({"op": "cas.dump", "h": nh, "fine": not g.xmi_safe})
             meta.append(("json", len(ops2) - 1, order is not None))
             nh += 1
         stage_b.append(ops2); metas.append(meta)
@@ -86,7 +91,10 @@ def run(ctx, out, budget):
         ops2, io2, meta = stage_b[k], ib[k], metas[k]
         sc2 = {"k": "session", "ops": ops2}
         info = g.tsinfo()
-        said = c01.norm_dump(refio.xmi_to_dump(io[-2]["ok"], info))
+        if g.xmi_safe:
+            said = c01.norm_dump(refio.xmi_to_dump(io[-2]["ok"], info))
+        else:
+            said = c01.norm_dump(refio.json_to_dump(io[-1]["ok"], info))
         for fmt, di, permuted in meta:
             out.evaluations += 1
             got = io2[di]
